@@ -34,7 +34,40 @@ func kfWhat(id string) string {
 
 var knownFindings = map[string]string{}
 
+func tierS(tier, q, t string) string {
+	if tier == "thorough" {
+		return t
+	}
+	return q
+}
+
+func segDesign(tier, fam string) []DesignRun {
+	return []DesignRun{{Module: "MCKlevSeg.tla", Cfg: tierS(tier, "seg_"+fam+"_q.cfg", "seg_"+fam+"_t.cfg"), Workers: 16,
+		Timeout: time.Duration(tierN(tier, 5, 40)) * time.Minute, Note: "KlevSeg bounded exhaustive, property predicates as invariants"}}
+}
+
+func segGen(tier, fam string, keys, times bool) *GenSpec {
+	return &GenSpec{Module: "Gen.tla", Cfg: tierS(tier, "gen_"+fam+"_q.cfg", "gen_"+fam+"_t.cfg"), Max: tierN(tier, 2500, 60000),
+		Timeout: time.Duration(tierN(tier, 5, 30)) * time.Minute, Keys: keys, Times: times}
+}
+
 func seqProfile(prop, tier string) *SeqProfile {
+	p := seqProfile0(prop, tier)
+	if p == nil {
+		return nil
+	}
+	switch prop {
+	case "C01", "C02", "C03", "C04", "C12":
+		p.Design, p.GenSpec = segDesign(tier, "core"), segGen(tier, "core", false, false)
+	case "C09":
+		p.Design, p.GenSpec = segDesign(tier, "keys"), segGen(tier, "keys", true, false)
+	case "C10":
+		p.Design, p.GenSpec = segDesign(tier, "times"), segGen(tier, "times", false, true)
+	}
+	return p
+}
+
+func seqProfile0(prop, tier string) *SeqProfile {
 	g := baseGen()
 	switch prop {
 	case "C01":
@@ -85,10 +118,6 @@ func seqProfile(prop, tier string) *SeqProfile {
 		}
 	}
 	return nil
-}
-
-func genFromSpec(gs *GenSpec, tier string, seed int64, scratch string) ([]*History, error) {
-	return nil, nil
 }
 
 var _ = time.Second
